@@ -27,7 +27,6 @@ type forExpander struct {
 
 	// output fields
 	tokens chan token
-	closed bool
 }
 
 type forStateFn func(f *forExpander) forStateFn
@@ -67,37 +66,43 @@ func (p *forExpander) next() token {
 }
 
 func (f *forExpander) run() {
-	if f.closed || f.atEOF {
+	// closing the channel tells the consumer that no more tokens follow, so
+	// it never has to guess whether another send is pending
+	defer close(f.tokens)
+
+	if f.atEOF {
 		return
 	}
 	for state := forLine; state != nil; {
 		state = state(f)
 	}
-
-	// add an extra EOF in case we end without one
-	// we don't want to block on reading from the channel
-	f.tokens <- token{tokEOF, ""}
-	f.closed = true
 }
 
 func (f *forExpander) NextToken() (token, error) {
-	if f.closed {
+	tok, ok := <-f.tokens
+	if !ok {
 		return token{}, fmt.Errorf("no more tokens")
 	}
-	return <-f.tokens, nil
+	return tok, nil
 }
 
 func (f *forExpander) Tokens() ([]token, error) {
-	if f.closed {
-		return nil, fmt.Errorf("no more tokens")
-	}
 	tokens := make([]token, 0)
-	for !f.closed {
-		tok := <-f.tokens
+	done := false
+	// read until the producer closes the channel so that it is never left
+	// blocked on a send, but keep nothing after the first EOF or Error
+	for tok := range f.tokens {
+		if done {
+			continue
+		}
 		tokens = append(tokens, tok)
 		if tok.typ == tokEOF || tok.typ == tokError {
-			break
+			done = true
 		}
+	}
+	if !done {
+		// add an EOF in case we end without one
+		tokens = append(tokens, token{tokEOF, ""})
 	}
 	return tokens, nil
 }
@@ -368,6 +373,9 @@ func forRof(f *forExpander) forStateFn {
 func forEmitConsumeStream(f *forExpander) forStateFn {
 	for f.nextToken.typ != tokEOF {
 		f.tokens <- f.nextToken
+		if f.nextToken.typ == tokError {
+			return nil
+		}
 		f.next()
 	}
 	return nil
